@@ -210,6 +210,48 @@ def restyle_oracle(case: dict, tmp: Path, tag: str) -> list:
     return fails
 
 
+SINGLE_VALUES = {"alignment": [[2, 1], [1, 2], [0, 2], [3, 0]], "bold": [True], "italic": [True], "underline": [True], "strikethrough": [True],
+                 "font_size": [17.0, 9.0], "font_name": ["Courier New", "Arial"], "font_color": [[255, 0, 0]], "bg_color": [[0, 255, 0]],
+                 "first_indent": [5.0], "left_indent": [6.0], "right_indent": [7.0], "text_inset": [8.0], "text_wrap": [False]}
+
+
+def single_attr_oracle(case: dict, tmp: Path, tag: str) -> list:
+    """ONE attribute of a style that is already in use is changed - a preset applied by name, or a style made with
+    add_style whose document has been saved once (its change flags are clear): the open document and the saved file
+    both show the new value, and every other attribute is the same in both."""
+    from numbers_parser import RGB, Alignment, Document
+    src, a, v = case["source"], case["attr"], case["value"]
+    try:
+        doc = Document(num_rows=4, num_cols=3)
+        t = doc.sheets[0].tables[0]
+        t.write(1, 1, "x")
+        t.write(2, 2, "other")
+        if src == "preset":
+            t.set_cell_style(1, 1, case.get("preset", "Body"))
+        else:
+            st0 = doc.add_style(name="Mine", bold=False, font_size=12.0)
+            t.set_cell_style(1, 1, st0)
+            doc.save(tmp / f"{tag}_0.numbers")
+        st = t.cell(1, 1).style
+        val = Alignment(*v) if a == "alignment" else RGB(*v) if a in ("bg_color", "font_color") else v
+        setattr(st, a, val)
+        mem = observe_style(t.cell(1, 1).style)
+        doc.save(tmp / f"{tag}_1.numbers")
+        back = observe_style(Document(tmp / f"{tag}_1.numbers").sheets[0].tables[0].cell(1, 1).style)
+    except Exception as e:  # noqa: BLE001
+        return [("restyle-raises", f"{src} style, {a} := {v!r}: {type(e).__name__}: {e}")]
+    want = float(v).hex() if a in FLOAT_ATTRS else v
+    fails = []
+    for where, got in (("open document", mem), ("saved file", back)):
+        g = got[a]
+        if g != want and not (a in FLOAT_ATTRS and float.fromhex(g) == f32(float(v))):
+            fails.append((f"restyle-lost:{a}", f"{where}: {src} style, only {a} changed to {v!r}: reads {g!r}"))
+    other = [k for k in mem if k != a and mem[k] != back[k]]
+    if other:
+        fails.append((f"restyle-changed-other:{other[0]}", f"{src} style, only {a} changed: {other[0]} is {mem[other[0]]!r} on the open document, {back[other[0]]!r} in the saved file"))
+    return fails
+
+
 def style_objects(doc) -> dict:
     """How many paragraph / cell style archives the file holds."""
     m = doc._model
@@ -370,6 +412,14 @@ def run_styles(ctx: Ctx, exe):
         ctx.nontrivial(("restyle", json.dumps(case, sort_keys=True)))
         for sig, detail in restyle_oracle(case, ctx.tmp, f"rs{i}"):
             ctx.oracle_fail(sig, case, detail)
+    singles = [{"kind": "single-attr", "source": src, "attr": a, "value": v} for src in ("preset", "added") for a, vs in SINGLE_VALUES.items() for v in vs]
+    if ctx.quick:
+        singles = [c for i, c in enumerate(singles) if c["attr"] == "alignment" or i % 2 == ctx.seed % 2]
+    for i, case in enumerate(singles):
+        ctx.count("oracle-single-attr")
+        ctx.nontrivial(("single-attr", json.dumps(case, sort_keys=True)))
+        for sig, detail in single_attr_oracle(case, ctx.tmp, f"sa{i}"):
+            ctx.oracle_fail(sig, case, detail)
     fixtures = ["issue-7.numbers", "test-styles.numbers", "issue-56.numbers", "test-bgcolour.numbers"]
     if not ctx.quick:
         fixtures = sorted(p.name for p in (common.REPO / "tests" / "data").glob("*.numbers"))
@@ -403,6 +453,8 @@ def search_styles(ctx: Ctx) -> list:
 def replay_case(case: dict, tmp: Path) -> list:
     if case.get("kind") == "fixture-style-read":
         return [x for x in fixture_read_oracle(case["fixture"], tmp) if x[0] != "SKIP"]
+    if case.get("kind") == "single-attr":
+        return single_attr_oracle(case, tmp, "replay")
     if case.get("kind") == "restyle":
         return restyle_oracle(case, tmp, "replay")
     return style_oracle(case, tmp, "replay")
